@@ -69,6 +69,11 @@ func newC09World(c *core.Ctx, nClients, nIdx, nAnon int) *c09World {
 		px, py = append(px, x), append(py, y)
 	}
 	for k := 0; k < nAnon; k++ {
+		if k == 0 {
+			// the first anonymous origin ID is the empty byte string: a binding to it is a binding like any other
+			w.anon = append(w.anon, []byte{})
+			continue
+		}
 		w.anon = append(w.anon, []byte(fmt.Sprintf("anon-origin-%d", k)))
 	}
 	for ci := 0; ci < nClients; ci++ {
